@@ -359,4 +359,52 @@ def check(fx, rep, tier):
                   {'arms': sorted(seen), 'family': sorted(fam)})
     if not n5:
         rep.bad('R16.5', 'anchor', 'zlink-macros/src', 'no function erasing lifetimes from a syn::Type found')
+    # R16.6 doc comments reach the description for every shape: the comment objects are `&Comment::new("..")` - calls of a const fn behind a reference.
+    # The derive output is evaluated in a const context (`const VARIANTS`, `static FIELD_..`), where such a temporary lives for 'static only by
+    # promotion, and a const fn call is promoted only in code that is certain to run (RFC 3027): not inside a `match` arm, an `if` / `else` branch or
+    # a loop body.  A template that interpolates the comment list there compiles as long as the list is empty and fails (E0716) for the first item
+    # that carries a doc comment.
+    rep.rule('R16.6', 'doc comments of every shape: in the introspection derive templates the list of comment objects (`&Comment::new(..)`, promoted constants) '
+                      'is interpolated only where promotion applies - not inside a match arm, an if / else branch or a loop body of the generated const expression')
+    n6 = 0
+    for fn, n, impl in A.all_fns(fx.tpl, 'zlink-macros/src/introspect'):
+        for m in A.macros(n):
+            toks = _re.findall(r"[A-Za-z_][A-Za-z0-9_]*|=>|::|\S", m.get('tokens') or '')
+            if not any(t.endswith('comment_objects') for t in toks):
+                continue
+            stack = []          # (conditional?, keyword)
+            last_kw = None
+            window = []
+            bad = None
+            for i, t in enumerate(toks):
+                if t in ('match', 'if', 'else', 'while', 'for', 'loop'):
+                    window.append(t)
+                elif t == '=>':
+                    window.append('=>')
+                elif t in (';', ','):
+                    window = [w for w in window if w == 'match'] if False else []
+                elif t == '{':
+                    kw = window[-1] if window else None
+                    inside_match = bool(stack) and stack[-1][1] == 'match'
+                    stack.append((kw in ('match', 'if', 'else', 'while', 'for', 'loop', '=>') or inside_match, kw))
+                    window = []
+                elif t == '}':
+                    if stack:
+                        stack.pop()
+                    window = []
+                elif t.endswith('comment_objects'):
+                    n6 += 1
+                    cond = [kw or 'arm' for c, kw in stack if c]
+                    # a match arm without braces: `pat => expr` directly inside the match body
+                    if not cond and stack and stack[-1][1] == 'match':
+                        cond = ['match arm']
+                    if cond and bad is None:
+                        bad = cond
+            key = '%s|%s|comments-where-promotion-applies' % (n['name'], (m.get('tokens') or '')[:60].replace('|', '/'))
+            rep.check(bad is None, 'R16.6', key, '%s:%s' % (fn, m.get('line')),
+                      'the comment list of this template stands in unconditionally evaluated code of the generated constant',
+                      'this template interpolates the comment objects inside conditionally executed code (%s) of the generated constant: `&Comment::new(..)` is not '
+                      'promoted there, so the derive output fails to compile (E0716) for exactly the items that carry a doc comment - hoist the list into a `static` / '
+                      '`const` item of the generated block, as the sibling templates do with FIELD_REFS' % ', '.join(bad or []))
+    rep.floor('R16.6', 5, 'templates interpolating comment objects (struct, enum, field, variant, error variants)')
     return META
